@@ -195,6 +195,40 @@ func (g *modGen) pathAndVersion() (string, string) {
 	return p, v
 }
 
+// what modfile.MustQuote must catch, one entry or more per branch of it: the four
+// always-quoted characters, brackets and comma inside a longer string, non-printable
+// runes, and "//" or "/*" anywhere (interior and trailing included)
+var quoteTriggers = []string{" ", "\"", "'", "`", "(", ")", "[", "]", "{", "}", ",", "\x01", "\t", "\x7f", "\u200b", "\u00a0", "\u2028",
+	"//", "/*", "//", "/*", "*//", "/**/", "///"}
+
+// HostileDir returns a directory path (rooted, or starting with ./ or ../) that contains
+// something MustQuote must catch; it has to be written as a quoted string in a file.
+func HostileDir(r *rand.Rand) string {
+	t := quoteTriggers[r.Intn(len(quoteTriggers))]
+	if r.Intn(4) == 0 {
+		t += quoteTriggers[r.Intn(len(quoteTriggers))]
+	}
+	return pick(r, "./", "../", "/", "./a/", "../forks/", "./vendor") + pick(r, "", "x", "forks", "a.b") + t + pick(r, "", "dep", "x/y", "/api", "patched*/dep")
+}
+
+// QuoteProbe returns a string for exercising MustQuote / AutoQuote directly.
+func QuoteProbe(r *rand.Rand) string {
+	switch r.Intn(10) {
+	case 0:
+		return pick(r, "", "(", ")", "[", "]", "{", "}", ",", "/", "//", "/*", "*/", "a", " ", "\"", "()", "a,", "é", "\xff", "a\xffb")
+	case 1, 2:
+		return HostileDir(r)
+	case 3:
+		return RawBytes(r, 8)
+	case 4:
+		return soupIdents[r.Intn(len(soupIdents))] + quoteTriggers[r.Intn(len(quoteTriggers))]
+	case 5:
+		return quoteTriggers[r.Intn(len(quoteTriggers))] + soupIdents[r.Intn(len(soupIdents))]
+	default:
+		return soupIdents[r.Intn(len(soupIdents))]
+	}
+}
+
 // quote a token the way a user might: plain, interpreted string, rarely a raw string
 func (g *modGen) tok(s string) string {
 	if g.o.NoQuoting || s == "" {
@@ -301,7 +335,14 @@ func (g *modGen) replaceLine() modLine {
 		toks = append(toks, g.tok(v))
 	}
 	toks = append(toks, "=>")
-	if r.Intn(2) == 0 {
+	if k := r.Intn(8); k == 0 {
+		// a directory that only survives as a quoted string
+		d := HostileDir(r)
+		if strings.Contains(d, `\`) {
+			d = "./a b//c"
+		}
+		toks = append(toks, strconv.Quote(d))
+	} else if k < 4 {
 		toks = append(toks, g.tok(pick(r, "./local", "../other", "/abs/path", "./a b", ".", "..", `.\win`, "C:/x", "./x(y)")))
 	} else {
 		np, nv := g.pathAndVersion()
@@ -380,8 +421,14 @@ func (g *modGen) directive(verb string) modLine {
 	case "retract":
 		return g.retractLine()
 	case "tool":
+		if r.Intn(8) == 0 {
+			return modLine{toks: []string{strconv.Quote(HostileDir(r))}}
+		}
 		return modLine{toks: []string{g.tok(pick(r, "example.com/a/cmd/x", "golang.org/x/tools/cmd/stringer", "./cmd/y", "example.com/t ool"))}}
 	case "use":
+		if r.Intn(5) == 0 {
+			return modLine{toks: []string{strconv.Quote(HostileDir(r))}}
+		}
 		return modLine{toks: []string{g.tok(pick(r, "./a", "./b", "../c", ".", "./x y", "/abs/m", "./a/b"))}}
 	default: // unknown directive
 		n := r.Intn(3)
